@@ -125,8 +125,8 @@ Proof. reflexivity. Qed.
 (** the J_log block (S, t) is nan at both cells, hence 0 after nan_to_num; the J block is 1 and
     the value of S is 1/2, so the true entry  J * x / F  is 1/2 *)
 Theorem log_dead_rule_refuted :
-  J_log_val ereal_ops (J_log_contribs ereal_ops ediv G_dead [0%nat] E_dead true) 0 2 [1%nat] = None
-  /\ nan_to_zero ereal_ops (J_log_val ereal_ops (J_log_contribs ereal_ops ediv G_dead [0%nat] E_dead true) 0 2 [1%nat]) = Fin nn0
+  J_log_old_val ereal_ops (J_log_old_contribs ereal_ops ediv G_dead [0%nat] E_dead true) 0 2 [1%nat] = None
+  /\ nan_to_zero ereal_ops (J_log_old_val ereal_ops (J_log_old_contribs ereal_ops ediv G_dead [0%nat] E_dead true) 0 2 [1%nat]) = Fin nn0
   /\ eeqb (J_val ereal_ops (J_contribs ereal_ops G_dead [0%nat] E_dead true) 0 2 [1%nat]) (Fin nn1) = true
   /\ eeqb (emul (J_val ereal_ops (J_contribs ereal_ops G_dead [0%nat] E_dead true) 0 2 [1%nat]) quarter)
           (emul half half) = true.
@@ -139,7 +139,7 @@ Definition G_live : grammar :=
      g_rules := [ {| r_lhs := 0; r_nodes := [0%nat]; r_edges := [(2%nat, [0%nat])]; r_ext := [] |} ];
      g_start := 0%nat |}.
 Example log_live_rule_value :
-  match J_log_val ereal_ops (J_log_contribs ereal_ops ediv G_live [0%nat] E_dead true) 0 2 [1%nat] with
+  match J_log_old_val ereal_ops (J_log_old_contribs ereal_ops ediv G_live [0%nat] E_dead true) 0 2 [1%nat] with
   | Some v => eeqb v half
   | None => false
   end = true.
